@@ -220,7 +220,14 @@ func (x *Exec) rootReturn(st *State, f *Frame, res []Val) {
 		if cl.Kind != "ensures" {
 			continue
 		}
-		g := env.evalBool(cl.E)
+		g, msg := x.tryClause(env, cl.E)
+		if msg != "" {
+			// the clause can no longer be evaluated on this code (a field or call it talks about changed
+			// type or disappeared): it cannot be established
+			x.emit(st, "ensures", clauseLabel(cl, n), cl.Text+"   [cannot be evaluated on this code: "+msg+"]", cl.Props, TFalse)
+			n++
+			continue
+		}
 		x.emit(st, "ensures", clauseLabel(cl, n), cl.Text, cl.Props, g)
 		if cl.E.Op == "bin" && cl.E.Name == "==>" {
 			// vacuity guard: on at least one path the antecedent must be satisfiable
@@ -456,4 +463,18 @@ func (e *Engine) specType(name, pkg string) types.Type {
 		}
 	}
 	return e.typeByName(name)
+}
+
+// tryClause evaluates a postcondition / sink precondition; a contract error is returned as a message.
+func (x *Exec) tryClause(env *Env, e *Expr) (g Term, msg string) {
+	defer func() {
+		if r := recover(); r != nil {
+			if se, ok := r.(specError); ok {
+				g, msg = TFalse, se.msg
+				return
+			}
+			panic(r)
+		}
+	}()
+	return env.evalBool(e), ""
 }
